@@ -9,6 +9,7 @@ import pickle
 import harness as H
 
 NARR = 28
+CALL_SECONDS = 120     # a library call on these tiny inputs that has not returned by then never will
 
 
 def _np():
@@ -72,6 +73,7 @@ class Session:
         self.nfile = 0
         self.ctr = 0
         self.exceptions = []
+        self.timeouts = []
 
     # ---- pool
     def add(self, a, name=""):
@@ -131,17 +133,18 @@ class Session:
         o = self.objs[oid]
         m = o["m"]
         try:
-            if o["kind"] == "sup":
-                m.fit(X, Y, I)
-            elif o["kind"] == "semi":
-                m.fit(X, Y, extra[0], I)
-            elif o["kind"] == "unsup":
-                m.fit(X, Y, I)
-            else:
-                m.fit(X, Y, extra[0], extra[1], I, extra[2] if len(extra) > 2 else None)
+            with H.time_limit(CALL_SECONDS):
+                if o["kind"] == "sup":
+                    m.fit(X, Y, I)
+                elif o["kind"] == "semi":
+                    m.fit(X, Y, extra[0], I)
+                elif o["kind"] == "unsup":
+                    m.fit(X, Y, I)
+                else:
+                    m.fit(X, Y, extra[0], extra[1], I, extra[2] if len(extra) > 2 else None)
             s = self.I("state", model_state(m, "full"))
         except Exception as ex:
-            self.exceptions.append(("fit", o["kind"], type(ex).__name__, str(ex)[:120]))
+            self.note_exception("fit", o["kind"], ex)
             s = self.I("state", "exc", type(ex).__name__)
         d = self.I("data", data_key) if data_key is not None else self.I("nodata", self.ctr)
         c = self.I("cfg", cfg_key if cfg_key is not None else sorted(o["cfg"].items()))
@@ -160,7 +163,8 @@ class Session:
         m = o["m"]
         rows = [self.I("arr", self.np.array(r)) for r in X]
         try:
-            r = m.predict(X, I)
+            with H.time_limit(CALL_SECONDS):
+                r = m.predict(X, I)
             if o["kind"] == "unsup":
                 res = list(zip([int(a) for a in r[0]], [int(b) for b in r[1]]))
             else:
@@ -168,7 +172,7 @@ class Session:
             if len(res) != len(rows):
                 res = [("len", len(res))] * len(rows)
         except Exception as ex:
-            self.exceptions.append(("predict", o["kind"], type(ex).__name__, str(ex)[:120]))
+            self.note_exception("predict", o["kind"], ex)
             res = [("exc", type(ex).__name__)] * len(rows)
         first = True
         for sc, rr in zip(rows, res):
@@ -181,11 +185,19 @@ class Session:
                 self.ev.append(e)
         return res
 
+    nfiles = 0      # files written by all sessions of this process: the form of the next file name follows it
+
+    def note_exception(self, op, kind, ex):
+        self.exceptions.append((op, kind, type(ex).__name__, str(ex)[:120]))
+        if isinstance(ex, H.CallTimeout):
+            self.timeouts.append((op, kind, str(ex)[:120]))
+
     def call(self, name, fn, *a, **kw):
         try:
-            r = fn(*a, **kw)
+            with H.time_limit(CALL_SECONDS):
+                r = fn(*a, **kw)
         except Exception as ex:
-            self.exceptions.append((name, "", type(ex).__name__, str(ex)[:120]))
+            self.note_exception(name, "", ex)
             r = None
         self.log(op="call", name=name)
         return r
@@ -197,7 +209,9 @@ class Session:
         tag = "full@%d" % self.ctr
         self.observe(oid, epoch, "full", nm=tag)
         # the file name is the caller's: with the usual extension, with none, with another one
-        path = os.path.join(self.tmp, ("m%d.pkl", "model%d", "m%d.bin")[self.ctr % 3] % self.ctr)
+        Session.nfiles += 1
+        path = os.path.join(self.tmp, ("m%d.pkl", "model%d", "m%d.bin", "run.2/model_%d")[Session.nfiles % 4] % Session.nfiles)
+        os.makedirs(os.path.dirname(path), exist_ok=True)
         self.call("save", o["m"].save, path)
         self.observe(oid, epoch, "full", nm=tag)
         new = self.new_model(o["kind"], o["g"], **fresh_cfg)
@@ -241,6 +255,10 @@ def judge(rep, sessions, tag, clause_filter):
     rep.add_tlc("SessionTrace (%d histories, %d events)" % (len(traces), sum(len(t["ev"]) for t in traces)), res, kind="trace")
     rep.count("traces_validated_against_impl", len(traces))
     rep.count("session_events", sum(len(t["ev"]) for t in traces))
+    # a call that never came back is not a behaviour of any action of the model
+    for s, meta in sessions:
+        for op, kind, msg in s.timeouts:
+            rep.violation(op, "call_did_not_return", kind, {"session": meta, "seed": rep.seed, "message": msg})
     out = []
     for tid, l, C in pr["REJECTED"][0]["__set__"]:
         s, meta = sessions[tid - 1]
